@@ -1,6 +1,7 @@
 package main
 
 import (
+	"go/ast"
 	"go/token"
 	"go/types"
 	"sort"
@@ -35,6 +36,7 @@ func init() {
 			{"C08-R5", "HTTP-only matchers refuse TCP", c08r5},
 			{"C08-R6", "action / policy-list agreement", c08r6},
 			{"C08-R7", "trust-domain migration on every model", c08r7},
+			{"C08-R8", "stateful generators are constructed with their state", c08r8},
 		},
 	})
 }
@@ -424,4 +426,73 @@ func c08r7(c *Ctx) {
 			"a model can reach Generate without MigrateTrustDomain: principals written with the cluster.local pointer or a trust-domain alias are not rewritten to the mesh's trust domain(s), so DENY rules stop matching real peers and ALLOW rules reject them")
 	}
 	c.Floor(2)
+}
+
+
+// C08-R8: a generator that carries state (fields its methods read, e.g. the policy namespace used to expand a short
+// service-account name) is never constructed with that state left at the zero value: every composite literal of such a
+// type in the package sets every field the type's methods read.
+func c08r8(c *Ctx) {
+	p := c.P
+	pk := p.Pkg(pkgAuthzModel)
+	gen := p.Named(pkgAuthzModel, "generator").Underlying().(*types.Interface)
+	ext := p.Named(pkgAuthzModel, "extendedGenerator").Underlying().(*types.Interface)
+	nTypes, nLits := 0, 0
+	for _, f := range pk.Syntax {
+		if strings.HasSuffix(p.Fset.Position(f.Pos()).Filename, "_test.go") {
+			continue
+		}
+		ast.Inspect(f, func(n ast.Node) bool {
+			cl, ok := n.(*ast.CompositeLit)
+			if !ok {
+				return true
+			}
+			tv, ok := pk.TypesInfo.Types[cl]
+			if !ok {
+				return true
+			}
+			nt, ok := tv.Type.(*types.Named)
+			if !ok {
+				return true
+			}
+			st, ok := nt.Underlying().(*types.Struct)
+			if !ok || st.NumFields() == 0 {
+				return true
+			}
+			if !types.Implements(nt, gen) && !types.Implements(nt, ext) && !types.Implements(types.NewPointer(nt), gen) && !types.Implements(types.NewPointer(nt), ext) {
+				return true
+			}
+			// fields read by the type's methods
+			var ms []*ssa.Function
+			for i := 0; i < nt.NumMethods(); i++ {
+				if fn := p.SSA.FuncValue(nt.Method(i)); fn != nil && fn.Blocks != nil {
+					ms = append(ms, fn)
+				}
+			}
+			eff := effectsOfFuncs(ms)
+			set := map[string]bool{}
+			positional := len(cl.Elts) == st.NumFields()
+			for _, e := range cl.Elts {
+				if kv, ok := e.(*ast.KeyValueExpr); ok {
+					positional = false
+					if id, ok := kv.Key.(*ast.Ident); ok {
+						set[id.Name] = true
+					}
+				}
+			}
+			nLits++
+			for i := 0; i < st.NumFields(); i++ {
+				fv := st.Field(i)
+				if _, read := eff.Reads[fv]; !read {
+					continue
+				}
+				nTypes++
+				c.Check("generator state set at construction: "+nt.Obj().Name()+"."+fv.Name(), cl.Pos(), positional || set[fv.Name()],
+					"a "+nt.Obj().Name()+" is constructed without its "+fv.Name()+", which its matcher generation reads: the value is expanded against the zero value (e.g. an empty namespace), the generated matcher matches no identity, a DENY rule using it admits the named principal and an ALLOW rule rejects it")
+			}
+			return true
+		})
+	}
+	c.Check("stateful generator literals found", token.NoPos, nTypes >= 2 && nLits >= 2, "fewer constructions of stateful generators than confirmed by hand (srcServiceAccountGenerator: source field and when condition)")
+	c.Floor(3)
 }
